@@ -14,11 +14,11 @@ attribute [local grind cases] Role
 @[simp] theorem loopTop_nc (l : Loc) : constrained (loopTop l).m = false := by
   unfold loopTop; split <;> rfl
 @[simp] theorem waitStep_nc (l : Loc) : constrained (waitStep l).m = false := by
-  obtain ⟨k, m, reg, spun, v, t, h⟩ := l
-  cases reg <;> cases spun <;> rfl
+  obtain ⟨k, m, reg, spun, v, t, h, tm⟩ := l
+  cases reg <;> cases spun <;> cases tm <;> rfl
 @[simp] theorem afterPush_nc (l : Loc) (b : Bool) : constrained (afterPush l b).m = false := by
-  obtain ⟨k, m, reg, spun, v, t, h⟩ := l
-  cases k <;> cases b <;> cases reg <;> cases spun <;> rfl
+  obtain ⟨k, m, reg, spun, v, t, h, tm⟩ := l
+  cases k <;> cases b <;> cases reg <;> cases spun <;> cases tm <;> rfl
 @[simp] theorem afterPop_nc (l : Loc) (x : Option Nat) : constrained (afterPop l x).m = false := by
   obtain ⟨k, m, reg, spun, v, t, h⟩ := l
   cases k <;> cases x <;> cases reg <;> rfl
@@ -67,6 +67,8 @@ theorem rinv_swapFlag {s s' : State} {r : Role} (hi : RInv s) (h : stepSwapFlag 
   rinv_nonring hi h r [stepSwapFlag]
 theorem rinv_spin {s s' : State} {r : Role} (hi : RInv s) (h : stepSpin s r = some s') : RInv s' := by
   rinv_nonring hi h r [stepSpin]
+theorem rinv_deadline {s s' : State} {r : Role} (hi : RInv s) (h : stepDeadline s r = some s') : RInv s' := by
+  rinv_nonring hi h r [stepDeadline]
 theorem rinv_ldClosed {s s' : State} {r : Role} (hi : RInv s) (h : stepLdClosed s r = some s') : RInv s' := by
   rinv_nonring hi h r [stepLdClosed]
 theorem rinv_ldDropped {s s' : State} {r : Role} (hi : RInv s) (h : stepLdDropped s r = some s') : RInv s' := by
